@@ -5,7 +5,8 @@
 From EQL Require Import Base Generated Mode Mode_Facts.
 
 (* after EVERY finite history (any length, any nesting) of: enter/leave symbolic_mode / rule_mode / rule_mode(q) / `with q:`,
-   raise inside a block, create / advance / close / drop result iterators at any point inside or outside any block:
+   raise inside a block, create / advance (also with a block and an evaluation nested in the advance) / close / drop result
+   iterators at any point inside or outside any block:
    the mode is the one of the innermost enclosing mode-setting block (none outside all blocks) and the expression stack holds
    exactly the enclosing query blocks *)
 Theorem C08_confined : forall ops,
@@ -27,6 +28,12 @@ Print Assumptions C08_block_restores.
 Theorem C08_outside : forall ops, ref_run ops = [] -> cur (run ops) = None.
 Proof. exact outside_is_concrete. Qed.
 Print Assumptions C08_outside.
+
+(* a resumption during which a user predicate opens a symbolic block of its own and runs a complete nested evaluate() there leaves
+   exactly the state a plain resumption leaves (the histories above may contain such resumptions: ONextP) *)
+Theorem C08_nested_evaluation_transparent : forall s i ex, step s (ONextP i ex) = step s (ONext i ex).
+Proof. intros s i ex. cbn [step]. now rewrite nested_transparent. Qed.
+Print Assumptions C08_nested_evaluation_transparent.
 
 (* non-vacuity: the three-step witness of the repaired defect and a nested history *)
 Example C08_nonvacuous :
